@@ -2620,25 +2620,25 @@ impl DcpsDomainParticipant {
             .iter()
             .any(|handle| handle == &discovered_participant_data.dds_participant_data.key.value);
 
-        if is_domain_id_matching
-            && is_domain_tag_matching
-            && !is_participant_discovered
-            && !is_participant_ignored
-        {
-            self.add_matched_publications_detector(discovered_participant_data);
-            self.add_matched_publications_announcer(discovered_participant_data);
-            self.add_matched_subscriptions_detector(discovered_participant_data);
-            self.add_matched_subscriptions_announcer(discovered_participant_data);
-            self.add_matched_topics_detector(discovered_participant_data);
-            self.add_matched_topics_announcer(discovered_participant_data);
+        if is_domain_id_matching && is_domain_tag_matching && !is_participant_ignored {
+            if !is_participant_discovered {
+                self.add_matched_publications_detector(discovered_participant_data);
+                self.add_matched_publications_announcer(discovered_participant_data);
+                self.add_matched_subscriptions_detector(discovered_participant_data);
+                self.add_matched_subscriptions_announcer(discovered_participant_data);
+                self.add_matched_topics_detector(discovered_participant_data);
+                self.add_matched_topics_announcer(discovered_participant_data);
 
-            self.add_matched_service_request_data_reader(discovered_participant_data);
-            self.add_matched_service_request_data_writer(discovered_participant_data);
-            self.add_matched_service_reply_data_reader(discovered_participant_data);
-            self.add_matched_service_reply_data_writer(discovered_participant_data);
+                self.add_matched_service_request_data_reader(discovered_participant_data);
+                self.add_matched_service_request_data_writer(discovered_participant_data);
+                self.add_matched_service_reply_data_reader(discovered_participant_data);
+                self.add_matched_service_reply_data_writer(discovered_participant_data);
 
-            self.announce_participant(runtime);
+                self.announce_participant(runtime);
+            }
 
+            // The entry of an already discovered participant is refreshed with what it announces now
+            // (lease duration, locators, user data)
             let discovered_participant_info = DiscoveredParticipantInfo {
                 dds_participant_data: discovered_participant_data.dds_participant_data.clone(),
                 guid_prefix: discovered_participant_data.participant_proxy.guid_prefix,
